@@ -11,7 +11,8 @@ ob("NC_aput", "C10", entry="h_NC_aput", enforce="NC_aput", replace=["H4_NC_finda
 
 prop("C10",
      residual="decided per call: NC_findattr (bounded), NC_aput, SDIputattr/SDsetattr/SDattrinfo/SDreadattr over stubbed allocation (c10_attr_ext.py), "
-              "one attribute through hdf_write_attr then hdf_read_attrs over a ghost Vdata header (bounded), GRsetattr/GRattrinfo in memory (bounded).  "
+              "one attribute through hdf_write_attr then hdf_read_attrs over a ghost Vdata header (bounded), GRsetattr/GRattrinfo/GRgetattr in memory "
+              "(bounded), the value count SDgetdimscale asks the I/O layer for.  "
               "NOT decided: whole-API histories, the predefined attributes built on SDsetattr, dimension scales, Vdata/Vgroup attributes (vattr.c), "
               "name/index/ref bijections, the real V layer under the persistence path, reopen",
      assumptions=["A-XDR: the XDR layer is not verified (xdr_cdf stubbed)",
